@@ -316,28 +316,12 @@ bool hasComponentImports(const ComponentEntityConstPtr &componentEntity)
     return importsPresent;
 }
 
-bool hasUnitsImports(const UnitsPtr &units)
-{
-    bool importPresent = units->isImport();
-    auto model = owningModel(units);
-    size_t unistCount = units->unitCount();
-    for (size_t index = 0; !importPresent && (index < unistCount); ++index) {
-        std::string reference = units->unitAttributeReference(index);
-        if (!reference.empty() && !isStandardUnitName(reference)) {
-            if (model->hasUnits(reference)) {
-                importPresent = hasUnitsImports(model->units(reference));
-            }
-        }
-    }
-    return importPresent;
-}
-
 bool Model::hasImports() const
 {
     bool importsPresent = false;
     for (size_t index = 0; (index < unitsCount()) && !importsPresent; ++index) {
-        libcellml::UnitsPtr units = Model::units(index);
-        importsPresent = hasUnitsImports(units);
+        // Units referenced by a unit are units of this model too, so there is no need to follow the references.
+        importsPresent = Model::units(index)->isImport();
     }
 
     if (!importsPresent) {
